@@ -628,9 +628,10 @@ class SymFloat:
         return -cur().concretize(z3.ToInt(-self.t))
 
     def __round__(self, ndigits=None):
-        """round() to an integer: half to even; the result is concretised by forking."""
-        if ndigits not in (None, 0):
-            raise ModelGap("round(x, ndigits) of a symbolic real")
+        """round() to an integer: half to even; the result is concretised by forking.
+        round(x, n) with n given stays symbolic (sym_round)."""
+        if ndigits is not None:
+            return sym_round(self, ndigits)
         if self.nan is not None and bool(mk_bool(self.nan)):
             raise ValueError("cannot convert float NaN to integer")
         e = cur()
@@ -741,6 +742,18 @@ def sym_div(a, b):
     at = _zr(a)
     nf = SymFloat._nanflag(a, b)
     return SymFloat(at / bt, nf)
+
+
+def sym_round(x, decimals=0):
+    """round(x, decimals) of a symbolic real as a real term: floor(x * 10^d + 1/2) / 10^d.  (Exact ties go up
+    instead of to-even: a tie needs x * 10^d + 1/2 to be an integer, and the difference is one unit in the
+    last kept digit - irrelevant for the question asked of it: does rounding change a value at all.)"""
+    if not isinstance(x, SymFloat):
+        return x
+    d = int(decimals)
+    scale = fractions.Fraction(10) ** d
+    t = z3.ToReal(z3.ToInt(x.t * _realval_frac(scale) + _realval_frac(fractions.Fraction(1, 2)))) / _realval_frac(scale)
+    return SymFloat(t, x.nan)
 
 
 def ite(c, a, b):
